@@ -1385,3 +1385,182 @@ B('h5_store_moved_and_subclass_writes_the_capacity', ['C19'], 'R19.c',
   *(_moved_store() + [(STATS, "        self.last_hit = hit.start_time\n", "        self.last_hit = hit.start_time\n        self._cap += 1\n")]))
 B('h5_store_moved_and_count_reset_by_resize', ['C19'], 'R19.c',
   *_moved_store(_RESERVOIR_SRC.replace("        self._cap = new_size\n", "        self._cap = new_size\n        self._total_count = 0\n")))
+T('h5_store_size_public_property', ['C19'],
+  (STATS, _ST_TC_PROP, _ST_TC_PROP + "\n    @property\n    def data_count(self):\n        return len(self._data)\n"),
+  (STATS, _ST_ADD_TEST, "        if self.data_count < self._cap:\n"), (STATS, _ST_RESIZE_TEST, "        if new_size >= self.data_count:\n"))
+B('h5_store_size_public_property_counts_adds', ['C19'], 'R19.c',
+  (STATS, _ST_TC_PROP, _ST_TC_PROP + "\n    @property\n    def data_count(self):\n        return self._total_count - 1\n"),
+  (STATS, _ST_ADD_TEST, "        if self.data_count < self._cap:\n"))
+B('h5_store_size_property_overridden_by_the_subclass', ['C19'], 'R19.c',
+  (STATS, _ST_TC_PROP, _ST_TC_PROP + "\n    @property\n    def data_count(self):\n        return len(self._data)\n"),
+  (STATS, _ST_ADD_TEST, "        if self.data_count < self._cap:\n"),
+  (STATS, "    def add(self, hit):\n        super(RouteStatReservoir, self).add(hit)\n",
+          "    @property\n    def data_count(self):\n        return 0\n\n    def add(self, hit):\n        super(RouteStatReservoir, self).add(hit)\n"))
+
+# ---- the other parts of the mechanism moved as well (the summary function; the whole reservoir family with the record type) ---------
+_ST_GRS = '''def _get_route_stats(rt_hits):
+    ret = {}
+    for status, hits in rt_hits.items():
+        ret[status] = cur = {}
+        durs = [round(h.duration * 1000, 2) for h in hits]
+        stats = Stats(durs, use_copy=False)
+        desc_dict = stats.describe(quantiles=[0.25, 0.5, 0.75, 0.95, 0.99], format="dict")
+        desc_dict['count'] = hits.total_count  # need to account for reservoir count
+        desc_dict['last_hit'] = datetime.datetime.fromtimestamp(hits.last_hit).isoformat()
+        desc_dict['total_duration'] = round(hits.total_duration * 1000, 2)
+        cur.update(desc_dict)
+    return ret
+'''
+
+
+def _moved_summary(src=_ST_GRS):
+    return [(STATS, _ST_GRS, ''), (STATS, "from .core import Middleware\n", "from .core import Middleware, _get_route_stats\n"),
+            (C, r're:\Z', "\n\nimport datetime\nfrom boltons.statsutils import Stats\n\n\n" + src)]
+
+
+T('h5_summary_moved_to_another_module', ['C19'], *_moved_summary())
+B('h5_summary_moved_and_count_is_sample_size', ['C19'], 'R19.b',
+  *_moved_summary(_ST_GRS.replace("        desc_dict['count'] = hits.total_count  # need to account for reservoir count\n", "")))
+B('h5_summary_moved_and_stops_early', ['C19'], 'R19.b', *_moved_summary(_ST_GRS.replace("        cur.update(desc_dict)\n", "        cur.update(desc_dict)\n        break\n")))
+_FAMILY_SRC = _RESERVOIR_SRC + '''
+
+from collections import namedtuple
+
+Hit = namedtuple('Hit', 'start_time url pattern status_code '
+                 ' duration content_type')
+
+
+class RouteStatReservoir(Reservoir):
+    def __init__(self):
+        self.last_hit = None
+        self.total_duration = 0.0
+        super(RouteStatReservoir, self).__init__()
+
+    def add(self, hit):
+        super(RouteStatReservoir, self).add(hit)
+        self.last_hit = hit.start_time
+        self.total_duration += hit.duration
+'''
+
+
+def _moved_family(src=_FAMILY_SRC):
+    return [(STATS, r're:(?s)\ndef fast_randint\(start, stop\):.*?\n(?=class StatsMiddleware)', '\n'),
+            (STATS, "from .core import Middleware\n", "from .core import Middleware, fast_randint, Reservoir, Hit, RouteStatReservoir\n"), (C, r're:\Z', src)]
+
+
+T('h5_reservoir_family_moved', ['C19', 'C15'], *_moved_family())
+B('h5_reservoir_family_moved_fields_reordered', ['C19'], 'R19.a',
+  *_moved_family(_FAMILY_SRC.replace("'start_time url pattern status_code '", "'start_time pattern url status_code '")))
+B('h5_reservoir_family_moved_subclass_adds_twice', ['C19'], 'R19.c',
+  *_moved_family(_FAMILY_SRC.replace("        self.last_hit = hit.start_time\n", "        self.last_hit = hit.start_time\n        Reservoir.add(self, hit)\n")))
+
+# ---- sentinels: ``X.get(k, _S) is _S`` is the presence test ``k not in X`` (R15.h); ``getattr(e, 'code', _S)`` tested against ``_S``
+#      (or ``hasattr``) is the decision ``getattr(e, 'code', <class name>)`` makes (R19.a) -- for a module-level ``_S = object()`` that is
+#      only ever a lookup default / an operand of ``is`` ---------------------------------------------------------------------------
+_CTX_CLS = "class ContextProcessor(Middleware):\n"
+_CTX_TEST = "                if not self.overwrite and arg in context:\n"
+_CTX_UNSET = (CTX, _CTX_CLS, "_UNSET = object()\n\n\n" + _CTX_CLS)
+T('h5_ctx_sentinel_lookup', ['C15'], _CTX_UNSET, (CTX, _CTX_TEST, "                if not self.overwrite and context.get(arg, _UNSET) is not _UNSET:\n"))
+T('h5_ctx_sentinel_lookup_named', ['C15'], _CTX_UNSET,
+  (CTX, _CTX_TEST, "                current = context.get(arg, _UNSET)\n                if not self.overwrite and current is not _UNSET:\n"))
+B('h5_ctx_sentinel_read_the_wrong_way', ['C15'], 'R15.h', _CTX_UNSET,
+  (CTX, _CTX_TEST, "                if not self.overwrite and context.get(arg, _UNSET) is _UNSET:\n"))
+B('h5_ctx_none_is_not_a_sentinel', ['C15'], 'R15.h', (CTX, _CTX_TEST, "                if not self.overwrite and context.get(arg) is not None:\n"))
+B('h5_ctx_sentinel_put_into_the_context', ['C15'], 'R15.h', _CTX_UNSET,
+  (CTX, _CTX_TEST, "                if not self.overwrite and context.get(arg, _UNSET) is not _UNSET:\n"),
+  (CTX, "                context[arg] = kwargs.get(arg, self.defaults.get(arg))\n", "                context[arg] = kwargs.get(arg, self.defaults.get(arg, _UNSET))\n"))
+B('h5_ctx_sentinel_of_another_key', ['C15'], 'R15.h', _CTX_UNSET,
+  (CTX, _CTX_TEST, "                if not self.overwrite and context.get('arg', _UNSET) is not _UNSET:\n"))
+_ST_EXC_KEY = "            resp_status = repr(getattr(e, 'code', e.__class__.__name__))\n"
+_ST_MISSING = (STATS, "Hit = namedtuple(", "_MISSING = object()\n\n\nHit = namedtuple(")
+T('h5_status_key_sentinel_lookup', ['C19'], _ST_MISSING,
+  (STATS, _ST_EXC_KEY, "            code = getattr(e, 'code', _MISSING)\n            resp_status = repr(e.__class__.__name__ if code is _MISSING else code)\n"))
+T('h5_status_key_hasattr_branches', ['C19'],
+  (STATS, _ST_EXC_KEY, "            if hasattr(e, 'code'):\n                resp_status = repr(e.code)\n            else:\n                resp_status = repr(e.__class__.__name__)\n"))
+B('h5_status_key_sentinel_branches_swapped', ['C19'], 'R19.a', _ST_MISSING,
+  (STATS, _ST_EXC_KEY, "            code = getattr(e, 'code', _MISSING)\n            resp_status = repr(code if code is _MISSING else e.__class__.__name__)\n"))
+B('h5_status_key_one_key_for_all_other_exceptions', ['C19'], 'R19.a', _ST_MISSING,
+  (STATS, _ST_EXC_KEY, "            code = getattr(e, 'code', _MISSING)\n            resp_status = repr('error' if code is _MISSING else code)\n"))
+B('h5_status_key_hasattr_of_another_attribute', ['C19'], 'R19.a',
+  (STATS, _ST_EXC_KEY, "            if hasattr(e, 'description'):\n                resp_status = repr(e.code)\n            else:\n                resp_status = repr(e.__class__.__name__)\n"))
+
+# ---- a built-in middleware moved out of the middleware package and imported back: it is still a built-in middleware (C15 scans it) ---
+CKM = 'clastic/middleware/cookie.py'
+_CK_MW_SRC = '''
+
+import os
+import time
+from .middleware.core import Middleware
+from .middleware.cookie import JSONCookie, SESSION, NEVER
+
+
+class SignedCookieMiddleware(Middleware):
+    _cookie_type = JSONCookie
+
+    def __init__(self,
+                 arg_name='cookie',
+                 cookie_name=None,
+                 secret_key=None,
+                 domain=None,
+                 path='/',
+                 secure=False,
+                 http_only=False,
+                 expiry=SESSION,
+                 data_expiry=None):
+        if data_expiry is not None:
+            print("SignedCookieMiddleware's data_expiry argument is deprecated"
+                  ". Use expiry instead.")
+            expiry = data_expiry
+        self.arg_name = arg_name
+        self.provides = (arg_name,)
+        if cookie_name is None:
+            cookie_name = 'clastic_%s' % arg_name
+        self.cookie_name = cookie_name
+        self.secret_key = secret_key or self._get_random()
+        self.domain = domain  # used for cross-domain cookie
+        self.path = path  # limit cookie to given path
+        self.secure = secure  # only transmit on HTTPS
+        self.http_only = http_only  # disallow client-side (js) access
+        self.expiry = expiry
+
+    def request(self, next, request):
+        cookie = self._cookie_type.load_cookie(request,
+                                               key=self.cookie_name,
+                                               secret_key=self.secret_key)
+        response = next(**{self.arg_name: cookie})
+        if self.expiry != NEVER and self.expiry != SESSION:
+            # let the cookie-specified value override, if present
+            if '_expires' not in cookie:
+                cookie['_expires'] = time.time() + self.expiry
+        save_cookie_kwargs = dict(key=self.cookie_name,
+                                  domain=self.domain,
+                                  path=self.path,
+                                  secure=self.secure,
+                                  httponly=self.http_only)
+        if '_expires' in cookie:
+            save_cookie_kwargs['expires'] = cookie['_expires']
+        cookie.save_cookie(response, **save_cookie_kwargs)
+        return response
+
+    def _get_random(self):
+        return os.urandom(20)
+
+    def __repr__(self):
+        cn = self.__class__.__name__
+        return ('%s(arg_name=%r, cookie_name=%r)'
+                % (cn, self.arg_name, self.cookie_name))
+
+'''
+
+
+def _moved_cookie_mw(src=_CK_MW_SRC):
+    return [(CKM, r're:(?s)class SignedCookieMiddleware\(Middleware\):.*\Z', 'from ..errors import SignedCookieMiddleware\n'), (E, r're:\Z', src)]
+
+
+T('h5_cookie_middleware_moved_out_of_the_package', ['C15'], *_moved_cookie_mw())
+B('h5_cookie_middleware_moved_and_answers_itself', ['C15'], 'R15.b',
+  *_moved_cookie_mw(_CK_MW_SRC.replace("        cookie.save_cookie(response, **save_cookie_kwargs)\n        return response\n",
+                                       "        cookie.save_cookie(response, **save_cookie_kwargs)\n        return None\n")))
+B('h5_cookie_middleware_moved_and_reads_a_mixin_attribute', ['C15'], 'R15.a',
+  *_moved_cookie_mw(_CK_MW_SRC.replace("        cookie.save_cookie(response, **save_cookie_kwargs)\n        return response\n",
+                                       "        cookie.save_cookie(response, **save_cookie_kwargs)\n        response.cache_control.private = True\n        return response\n")))
